@@ -333,11 +333,26 @@ func scnDirs(rep *Report, rng *Rng, tier string, outdir string) {
 	kinds := []string{"dir", "dir", "nodata", "symlink", "metadata", "garbage"}
 	cf := NewCaseFile(rep, outdir, "cases_dirs", "UV.Corr.Dirs", "mismatches_dirs", 100)
 	rep.P("C15").Rule = "random dag-pb link lists (0..12 links; names absent/empty/duplicated from an 8-symbol alphabet; any order or codec-sorted) reified as plain directory / generic link map; distinct = distinct (link list, kind); non-trivial = at least 2 links"
-	for i := 0; i < n; i++ {
+	nLong := 16
+	for i := 0; i < n+nLong; i++ {
 		in := DirsInput{Kind: kinds[rng.Intn(len(kinds))], Encoded: rng.Intn(3) == 0}
 		nl := rng.Intn(13)
 		if i < 13 {
 			nl = i // make sure every length occurs
+		}
+		if i >= n {
+			// long lists with distinct names in no particular order (in memory, or written by another encoder: the
+			// decoder does not ask for sorted links)
+			in.Kind, in.Encoded = []string{"dir", "nodata"}[i%2], false
+			cnt := []int{31, 32, 33, 34, 48, 64, 65, 100}[(i-n)%8]
+			perm := rng.Perm(cnt)
+			for _, j := range perm {
+				s := fmt.Sprintf("n%03d", j)
+				in.Links = append(in.Links, DLink{Target: j % 8, Name: &s})
+				in.Keys = append(in.Keys, s)
+			}
+			in.Keys = append(in.Keys, "zz", "n", "")
+			nl = 0
 		}
 		for j := 0; j < nl; j++ {
 			l := DLink{Target: rng.Intn(8)}
@@ -349,7 +364,9 @@ func scnDirs(rep *Report, rng *Rng, tier string, outdir string) {
 			}
 			in.Links = append(in.Links, l)
 		}
-		in.Keys = append(append([]string{}, alphabet...), "zz")
+		if i < n {
+			in.Keys = append(append([]string{}, alphabet...), "zz")
+		}
 		obs, fails, ok := runDirsCase(in)
 		for _, f := range fails {
 			rep.Fail(f.Property, f.Signature, f.What, f.Input, f.Expected, f.Observed)
